@@ -24,7 +24,6 @@ package client
 
 import (
 	"sync"
-	"sync/atomic"
 )
 
 // RoundRobin implements the round-robin algorithm
@@ -56,6 +55,11 @@ func (x *RoundRobin) Set(nodes ...*Node) {
 func (x *RoundRobin) Next() *Node {
 	x.locker.Lock()
 	defer x.locker.Unlock()
-	n := atomic.AddUint32(&x.next, 1)
-	return x.nodes[(int(n)-1)%len(x.nodes)]
+	// keep the cursor reduced modulo the pool size: a free-running uint32
+	// counter yields index -1 (and a panic) on the call that wraps it to zero,
+	// and breaks the cyclic order whenever the pool size does not divide 2^32.
+	size := uint32(len(x.nodes))
+	idx := x.next % size
+	x.next = (idx + 1) % size
+	return x.nodes[idx]
 }
